@@ -185,6 +185,17 @@ class P1Model:
                     return "G", (not pol)
         if g[0] == "call" and g[1] == ".isascii" and g[2] and self.is_line(g[2][0]):
             return "As", pol
+        # other spellings of "the first octet of the (never empty) line is '/' / '!'": line.startswith(b"/"), line[:1] == b"/"
+        first = None
+        if g[0] == "call" and g[1] == ".startswith" and len(g[2]) == 2 and self.is_line(g[2][0]) and g[2][1][0] == "c":
+            first = g[2][1][1]
+        elif g[0] == "cmp" and g[1] == "Eq" and g[2][0] == "slice" and self.is_line(g[2][1]) and g[2][2] in (None, ("c", 0)) and g[2][3] == ("c", 1) and g[3][0] == "c":
+            first = g[3][1]
+        if isinstance(first, (bytes, bytearray)) and len(first) == 1:
+            if first[0] == SLASH:
+                return "Sl", pol
+            if first[0] == BANG:
+                return "En", pol
         if self.mentions(g, lambda s: s[0] == "call" and isinstance(s[1], str) and (s[1].endswith("is_ident_line") or s[1] == ".match")) and \
                 self.mentions(g, lambda s: self.is_line(s)):
             return "Id", pol
